@@ -1,0 +1,192 @@
+// Copyright (c) 2026 10X Genomics, Inc. All rights reserved.
+
+//go:build verif
+
+package core
+
+// Hooks for the external verification harness: a JobManager whose jobs are
+// handed to a callback instead of being executed (the interface has
+// unexported methods, so it cannot be implemented outside this package), a
+// Runtime constructor that uses it, and read-only accessors.  Only compiled
+// with `-tags verif`.
+
+import (
+	"context"
+	"time"
+
+	"github.com/martian-lang/martian/martian/syntax"
+)
+
+// VerifJob describes one job submission, exactly as execJob received it.
+type VerifJob struct {
+	ShellCmd     string
+	Argv         []string
+	Envs         map[string]string
+	Fqname       string
+	ShellName    string // split | main | join
+	MetadataPath string
+	FilesPath    string
+	JournalFile  string
+	Preflight    bool
+	Threads      float64
+	MemGB        float64
+	VMemGB       float64
+	Local        bool
+}
+
+// VerifJobManager records job submissions through OnExec.
+type VerifJobManager struct {
+	OnExec   func(*VerifJob)
+	OnEnd    func(metadataPath string)
+	Settings *JobManagerSettings
+	local    bool
+}
+
+func (self *VerifJobManager) execJob(shellCmd string, argv []string,
+	envs map[string]string, md *Metadata, res *JobResources,
+	fqname, shellName string, preflight bool) {
+	job := &VerifJob{
+		ShellCmd:     shellCmd,
+		Argv:         append([]string(nil), argv...),
+		Envs:         envs,
+		Fqname:       fqname,
+		ShellName:    shellName,
+		MetadataPath: md.path,
+		FilesPath:    md.curFilesPath,
+		JournalFile:  md.journalFile(),
+		Preflight:    preflight,
+		Local:        self.local,
+	}
+	if res != nil {
+		job.Threads, job.MemGB, job.VMemGB = res.Threads, res.MemGB, res.VMemGB
+	}
+	if self.OnExec != nil {
+		self.OnExec(job)
+	}
+}
+
+func (self *VerifJobManager) endJob(md *Metadata) {
+	if self.OnEnd != nil {
+		self.OnEnd(md.path)
+	}
+}
+
+func (self *VerifJobManager) checkQueue(ids []string, _ context.Context) ([]string, string) {
+	return ids, ""
+}
+func (self *VerifJobManager) hasQueueCheck() bool            { return false }
+func (self *VerifJobManager) queueCheckGrace() time.Duration { return 0 }
+func (self *VerifJobManager) refreshResources(bool) error    { return nil }
+func (self *VerifJobManager) GetSystemReqs(r *JobResources) JobResources {
+	return *r
+}
+func (self *VerifJobManager) GetMaxCores() int { return 0 }
+func (self *VerifJobManager) GetMaxMemGB() int { return 0 }
+func (self *VerifJobManager) GetSettings() *JobManagerSettings {
+	return self.Settings
+}
+func (self *VerifJobManager) resetMaxJobs()      {}
+func (self *VerifJobManager) reattach(*Metadata) {}
+
+// VerifNewRuntime builds a Runtime whose (non-local) jobs go to jm.
+func VerifNewRuntime(opts *RuntimeOptions, jm *VerifJobManager) (*Runtime, error) {
+	settings := &JobManagerSettings{
+		ThreadsPerJob: 1,
+		MemGBPerJob:   1,
+		ExtraVmemGB:   1,
+		ThreadEnvs:    []string{"GOMAXPROCS"},
+	}
+	if jm.Settings == nil {
+		jm.Settings = settings
+	}
+	rt := &Runtime{
+		Config:    opts,
+		jobConfig: &JobManagerJson{JobSettings: settings},
+		mrjob:     "/nonexistent/mrjob",
+	}
+	var err error
+	rt.LocalJobManager, err = NewLocalJobManager(4, 4, 16, false, false,
+		opts.JobMode != localMode, rt.jobConfig)
+	if err != nil {
+		return nil, err
+	}
+	rt.JobManager = jm
+	if opts.Overrides == nil {
+		rt.overrides, _ = ReadOverrides("")
+	} else {
+		rt.overrides = opts.Overrides
+	}
+	return rt, nil
+}
+
+// VerifForkView is a read-only view of one fork of a node.
+type VerifForkView struct {
+	Index   int
+	Id      string // directory name
+	Fqname  string // journal name
+	ForkId  string // ForkId.GoString()
+	State   MetadataState
+	Path    string
+	NChunks int
+}
+
+// VerifNodeView is a read-only view of a node.
+type VerifNodeView struct {
+	Fqname    string
+	Kind      string
+	State     MetadataState // cached state used by the scheduler
+	LiveState MetadataState // getState() now
+	Prenodes  []string
+	Forks     []VerifForkView
+	Preflight bool
+	Local     bool
+	Volatile  bool
+}
+
+// VerifNodes returns a view of every node of the pipestance.
+func (self *Pipestance) VerifNodes() []VerifNodeView {
+	nodes := self.allNodes()
+	out := make([]VerifNodeView, 0, len(nodes))
+	for _, n := range nodes {
+		v := VerifNodeView{
+			Fqname:    n.call.GetFqid(),
+			Kind:      "pipeline",
+			State:     n.state,
+			LiveState: n.getState(),
+			Preflight: n.call.Call().Modifiers.Preflight,
+			Local:     n.local,
+		}
+		if n.call.Kind() == syntax.KindStage {
+			v.Kind = "stage"
+		}
+		for k := range n.prenodes {
+			v.Prenodes = append(v.Prenodes, k)
+		}
+		for _, f := range n.forks {
+			v.Forks = append(v.Forks, VerifForkView{
+				Index:   f.index,
+				Id:      f.id,
+				Fqname:  f.fqname,
+				ForkId:  f.forkId.GoString(),
+				State:   f.getState(),
+				Path:    f.path,
+				NChunks: len(f.chunks),
+			})
+		}
+		out = append(out, v)
+	}
+	return out
+}
+
+// VerifStorageBarrier waits for every fork's asynchronous storage work
+// (VDR goroutines take the fork's storageLock) by taking and releasing
+// each lock once.
+func (self *Pipestance) VerifStorageBarrier() {
+	for _, n := range self.allNodes() {
+		for _, f := range n.forks {
+			f.storageLock.Lock()
+			//lint:ignore SA2001 barrier only
+			f.storageLock.Unlock()
+		}
+	}
+}
